@@ -15,7 +15,7 @@ def req (verb : String) (id : Json) (dry : Bool) (res : String) : Json := Json.a
 def applyEv (st reason : String) : Json := Json.arr #["apply", "apply-0", objJ, st, reason]
 
 /-- what the library does: (mutating requests, apply/error events, store changed) -/
-def expected (dry : Nat) (ssa streamErr exists_ : Bool) : List Json × List Json × Bool :=
+def expected (dry : Nat) (ssa streamErr exists_ : Bool) (retryFails : Bool := false) : List Json × List Json × Bool :=
   let ok := [applyEv "Successful" ""]
   let failed := [applyEv "Failed" "fault"]
   match dry with
@@ -25,10 +25,13 @@ def expected (dry : Nat) (ssa streamErr exists_ : Bool) : List Json × List Json
     let clientVerb := if exists_ then "patch" else "create"
     let applyVerb := if ssa then "patch" else clientVerb
     if !streamErr then ([first, req applyVerb objJ false "ok"], ok, true)
+    else if ssa && retryFails then
+      ([first, req "patch" objJ false "error", req clientVerb objJ false "error", req "update" invJ false "ok"], failed, true)
     else if ssa then ([first, req "patch" objJ false "error", req clientVerb objJ false "ok"], ok, true)
     else ([first, req applyVerb objJ false "error", req "update" invJ false "ok"], failed, true)
   | _ =>
     if !streamErr then ([req "patch" objJ true "ok"], ok, false)
+    else if ssa && retryFails then ([req "patch" objJ true "error", req "patch" objJ true "error"], failed, false)
     else if ssa then ([req "patch" objJ true "error", req "patch" objJ true "ok"], ok, false)
     else ([req "patch" objJ true "error"], failed, false)
 
@@ -37,19 +40,26 @@ def handleApisvc : Handler := fun i o => do
   let ssa ← jbool i "ssa"
   let se ← jbool i "streamErr"
   let ex ← jbool i "exists"
-  let (ms, es, ch) := expected dry ssa se ex
+  let rf := jboolD i "retryFails" false
+  let (ms, es, ch) := expected dry ssa se ex rf
   let m := Json.mkObj [("crash", Json.null), ("muts", Json.arr ms.toArray), ("events", Json.arr es.toArray), ("changed", ch)]
   let crashed := match jopt o "crash" with | some Json.null => false | none => false | _ => true
   let oMuts ← asList (← jget o "muts")
   let changed ← jbool o "changed"
   -- C10 on what the implementation did
   let dryFlags ← oMuts.mapM (fun r => do let a ← r.getArr?; a[2]!.getBool?)
-  let spec := !crashed && (match dry with
+  -- C04 (what a dependent's gate relies on): an apply all of whose requests for the object failed is not reported successful
+  let objReqs := oMuts.filter (fun r => match r with | Json.arr a => a.size == 4 && a[1]! == objJ | _ => false)
+  let allFailed := !objReqs.isEmpty && objReqs.all (fun r => match r with | Json.arr a => a[3]! == Json.str "error" | _ => false)
+  let oEvs ← asList (← jget o "events")
+  let saysFailed := oEvs.any (fun e => match e with | Json.arr a => a.size == 5 && a[3]! == Json.str "Failed" | _ => false)
+  let saysOk := !saysFailed
+  let spec := !(allFailed && saysOk) && !crashed && (match dry with
     | 0 => true
     | 1 => oMuts.isEmpty && !changed
     | _ => dryFlags.all id && !changed)
   return { model := m, agree := m == o, spec := spec, specModel := true, nontrivial := true,
-           note := if spec then "" else "C10: a dry-run sent a mutating request without the dry-run directive, or changed the store",
+           note := if spec then "" else if allFailed && saysOk then "C04: every apply request for the object failed, yet its apply is not reported Failed (the record a dependent's gate reads says otherwise)" else "C10: a dry-run sent a mutating request without the dry-run directive, or changed the store",
            tags := [s!"apisvc:dry{dry}", if se then "apisvc:stream-error" else "apisvc:plain", if ssa then "apisvc:ssa" else "apisvc:csa"] }
 
 end CliUtils.Drv.Apisvc
